@@ -14,7 +14,7 @@ modes
                                               convert_cnf; the CNF of the NEGATED formula through sat.solve_cnf
                                               (events in solve_out) and, with `prove`, proofrec.solve_cnf
   rformulas <n> <out.ndjson> <solve_out.ndjson> <seed> [prove]
-                                              same on seeded random formulas with 4..7 connectives over <= 4 atoms
+                                              same on seeded random formulas with 3..5 connectives over <= 3 atoms (half of them wrapped into tautology schemes)
 No verdict is computed here: only projection of results to JSON.
 Literals are [v, b] with v a positive integer (the driver maps integers to names and back).
 """
@@ -49,14 +49,25 @@ def _on_alarm(signum, frame):
 signal.signal(signal.SIGALRM, _on_alarm)
 _timeouts = 0
 _steps = [0, 0]     # [calls of solve_cnf's inner function `backtrack` in this call, budget]
+_tail = []          # what the last three calls of `backtrack` did: (conflict clause id, learned clause, assigns after, result)
 
 
 def _profile(frame, event, arg):
-    # run-time observation only (no source change): count the conflicts of the current solve_cnf call
-    if event == "call" and frame.f_code.co_name == "backtrack" and frame.f_code.co_filename.endswith("sat.py"):
-        _steps[0] += 1
-        if _steps[0] > _steps[1]:
-            raise StepBudget()
+    # run-time observation only (no source change): count the conflicts of the current solve_cnf call and keep
+    # the last three conflict rounds (used only to explain a time-out: three identical rounds = the run cycles)
+    if frame.f_code.co_name == "backtrack" and frame.f_code.co_filename.endswith("sat.py"):
+        if event == "call":
+            _steps[0] += 1
+            if _steps[0] > _steps[1]:
+                raise StepBudget()
+        elif event == "return":
+            try:
+                loc = frame.f_locals
+                _tail.append((loc["clause_id"], list(loc["cnf"][-1]), dict(loc["assigns"]), arg))
+                if len(_tail) > 3:
+                    del _tail[0]
+            except Exception:
+                del _tail[:]
 
 
 def step_budget(nv):
@@ -73,6 +84,7 @@ def timed(fun, *args, limit=None, budget=None):
     if limit is None:
         limit = LIMIT_LONG if _timeouts < MANY_TIMEOUTS else LIMIT_SHORT
     _steps[0], _steps[1] = 0, budget or 10 ** 9
+    del _tail[:]
     signal.setitimer(signal.ITIMER_REAL, limit)
     if budget:
         sys.setprofile(_profile)
@@ -146,7 +158,7 @@ def solve_event(cnf, names, src, vid=0, limit=None):
     outcome, res, lim = timed(sat.solve_cnf, inp, limit=limit, budget=budget)
     ev = {"kind": "solve", "src": src, "vid": vid, "cnf": cnf, "nv": nv, "budget": min(budget, 10 ** 6), "conflicts": _steps[0],
           "names": names[:max([v for c in cnf for v, _ in c] + [0])], "limit": lim,
-          "assignment": [], "proofs": [], "ret": "none", "dedup": dd, "order": order}
+          "assignment": [], "proofs": [], "ret": "none", "dedup": dd, "order": order, "tail": []}
     if outcome == "ok":
         # project the returned pair; anything that is not the documented shape is recorded as such
         try:
@@ -165,6 +177,13 @@ def solve_event(cnf, names, src, vid=0, limit=None):
             ev["ret"] = (repr(res)[:150] + " / " + repr(e))[:200]
     else:
         ev["verdict"] = outcome
+    if outcome == "timeout":
+        try:
+            ev["tail"] = [{"cid": int(cid), "learned": sorted([back[n], bool(b)] for n, b in learned),
+                           "asg": sorted([back[n], bool(a[0]), int(a[2])] for n, a in asg.items()),
+                           "ret": int(ret) if isinstance(ret, int) else -1} for cid, learned, asg, ret in _tail]
+        except Exception:
+            ev["tail"] = []
     ev["key"] = "solve:%s" % digest([cnf, ev["names"]])
     return ev
 
@@ -435,11 +454,11 @@ def rformulas_mode(n, out_path, solve_out, seed, prove):
     rnd = random.Random(seed * 15485863 + 1)
     log, slog = Log(out_path), Log(solve_out)
     for i in range(n):
-        atoms = ["a", "b", "c", "d"][:rnd.choice([1, 2, 2, 3, 3, 4])]
-        f = random_formula(rnd, rnd.choice([4, 4, 5, 5, 6, 7]), atoms)
+        atoms = ["a", "b", "c"][:rnd.choice([1, 2, 2, 3, 3])]
+        f = random_formula(rnd, rnd.choice([3, 4, 4, 5, 5]), atoms)
         if rnd.random() < 0.5:
             # bias towards tautologies, so that the end-to-end prover has something to prove
-            g = random_formula(rnd, rnd.choice([1, 2, 3]), atoms)
+            g = random_formula(rnd, rnd.choice([1, 2]), atoms)
             f = rnd.choice([["imp", f, f], ["or", g, ["not", g]], ["imp", ["and", f, g], f], ["imp", g, ["or", f, g]],
                             ["iff", ["and", g, g], g], ["imp", ["and", ["imp", g, f], g], f]])
         log.write(tseitin_event(f, "rand", 0))
